@@ -86,6 +86,10 @@ func handleUnionStatement(query, pattern sqlparser.Statement) bool {
 		return true
 	}
 
+	match = strings.EqualFold(queryUnionNode.Type, patternUnionNode.Type)
+	if !match {
+		return false
+	}
 	match = areEqualSelectStatement(queryUnionNode.Left, patternUnionNode.Left)
 	if !match {
 		return false
@@ -218,6 +222,10 @@ func handleInsertStatement(query, pattern sqlparser.Statement) bool {
 	if !match {
 		return false
 	}
+	match = queryInsertNode.Default == patternInsertNode.Default
+	if !match {
+		return false
+	}
 	match = areEqualPartitions(queryInsertNode.Partitions, patternInsertNode.Partitions)
 	if !match {
 		return false
@@ -231,6 +239,10 @@ func handleInsertStatement(query, pattern sqlparser.Statement) bool {
 		return false
 	}
 	match = areEqualOnDup(queryInsertNode.OnDup, patternInsertNode.OnDup)
+	if !match {
+		return false
+	}
+	match = areEqualReturning(queryInsertNode.Returning, patternInsertNode.Returning)
 	if !match {
 		return false
 	}
@@ -260,6 +272,14 @@ func handleUpdateStatement(query, pattern sqlparser.Statement) bool {
 		return false
 	}
 	match = areEqualUpdateExprs(queryUpdateNode.Exprs, patternUpdateNode.Exprs)
+	if !match {
+		return false
+	}
+	match = areEqualTableExprs(queryUpdateNode.From, patternUpdateNode.From)
+	if !match {
+		return false
+	}
+	match = areEqualReturning(queryUpdateNode.Returning, patternUpdateNode.Returning)
 	if !match {
 		return false
 	}
@@ -309,6 +329,10 @@ func handleDeleteStatement(query, pattern sqlparser.Statement) bool {
 		return false
 	}
 	match = areEqualPartitions(queryDeleteNode.Partitions, patternDeleteNode.Partitions)
+	if !match {
+		return false
+	}
+	match = areEqualReturning(queryDeleteNode.Returning, patternDeleteNode.Returning)
 	if !match {
 		return false
 	}
@@ -467,6 +491,13 @@ func areEqualColumns(query, pattern sqlparser.Columns) bool {
 	return true
 }
 func areEqualInsertRows(query, pattern sqlparser.InsertRows) bool {
+	if query == nil && pattern == nil {
+		// INSERT ... DEFAULT VALUES has no rows
+		return true
+	}
+	if query == nil || pattern == nil {
+		return false
+	}
 	switch pattern.(type) {
 	case *sqlparser.Select:
 		querySelect, ok := query.(*sqlparser.Select)
@@ -505,7 +536,7 @@ func areEqualInsertRows(query, pattern sqlparser.InsertRows) bool {
 		if !ok {
 			return false
 		}
-		if !handleSelectStatement(queryParenSelect.Select, pattern.(*sqlparser.ParenSelect).Select) {
+		if !areEqualSelectStatement(queryParenSelect.Select, pattern.(*sqlparser.ParenSelect).Select) {
 			return false
 		}
 	default:
@@ -514,6 +545,9 @@ func areEqualInsertRows(query, pattern sqlparser.InsertRows) bool {
 	}
 
 	return true
+}
+func areEqualReturning(query, pattern sqlparser.Returning) bool {
+	return areEqualSelectExprs(sqlparser.SelectExprs(query), sqlparser.SelectExprs(pattern))
 }
 func areEqualOnDup(query, pattern sqlparser.OnDup) bool {
 	if len(query) != len(pattern) {
@@ -738,7 +772,7 @@ func areEqualTableName(query, pattern sqlparser.TableName) bool {
 	return true
 }
 func areEqualTableIdent(query, pattern sqlparser.TableIdent) bool {
-	return strings.EqualFold(query.CompliantName(), pattern.CompliantName())
+	return strings.EqualFold(query.RawValue(), pattern.RawValue())
 }
 func areEqualAliasedExpr(query, pattern *sqlparser.AliasedExpr) bool {
 	if !areEqualColIdent(query.As, pattern.As) {
@@ -1077,13 +1111,22 @@ func areEqualConvertType(query, pattern *sqlparser.ConvertType) bool {
 	if !strings.EqualFold(query.Operator, pattern.Operator) {
 		return false
 	}
-	if areEqualSQLVal(query.Length, pattern.Length) {
+	if !areEqualOptionalSQLVal(query.Length, pattern.Length) {
 		return false
 	}
-	if areEqualSQLVal(query.Scale, pattern.Scale) {
+	if !areEqualOptionalSQLVal(query.Scale, pattern.Scale) {
 		return false
 	}
 	return true
+}
+func areEqualOptionalSQLVal(query, pattern *sqlparser.SQLVal) bool {
+	if query == nil && pattern == nil {
+		return true
+	}
+	if query == nil || pattern == nil {
+		return false
+	}
+	return areEqualSQLVal(query, pattern)
 }
 func areEqualValuesFuncExpr(query, pattern *sqlparser.ValuesFuncExpr) bool {
 	return areEqualColName(query.Name, pattern.Name)
@@ -1092,7 +1135,7 @@ func areEqualCaseExpr(query, pattern *sqlparser.CaseExpr) bool {
 	if !areEqualExpr(query.Expr, pattern.Expr) {
 		return false
 	}
-	if !areEqualExpr(query.Else, pattern.Expr) {
+	if !areEqualExpr(query.Else, pattern.Else) {
 		return false
 	}
 
@@ -1144,7 +1187,7 @@ func areEqualIntervalExpr(query, pattern *sqlparser.IntervalExpr) bool {
 	if !strings.EqualFold(query.Unit, pattern.Unit) {
 		return false
 	}
-	if areEqualExpr(query.Expr, pattern.Expr) {
+	if !areEqualExpr(query.Expr, pattern.Expr) {
 		return false
 	}
 	return true
@@ -1186,7 +1229,11 @@ func areEqualSQLVal(query, pattern *sqlparser.SQLVal) bool {
 	if isListOfValuesPattern(pattern) {
 		return true
 	}
-	if query.Type == pattern.Type && bytes.Equal(query.Val, pattern.Val) {
+	if query.Type == sqlparser.UnknownVal || pattern.Type == sqlparser.UnknownVal {
+		// type cast of something that is not a literal (NULL::t, DEFAULT::t): the operand is not in Val
+		return reflect.DeepEqual(query, pattern)
+	}
+	if query.Type == pattern.Type && bytes.Equal(query.Val, pattern.Val) && bytes.Equal(query.CastType, pattern.CastType) {
 		return true
 	}
 	return false
@@ -1356,12 +1403,21 @@ func areEqualValTuple(query sqlparser.ValTuple, pattern sqlparser.ValTuple) bool
 	// It's allowed to use this pattern combined with %%VALUE%% only
 	// at last position in tuple
 	if len(query) > len(pattern) {
+		if len(pattern) == 0 {
+			return false
+		}
 		patternValue, ok := pattern[len(pattern)-1].(*sqlparser.SQLVal)
 		if !ok {
 			return false
 		}
 		if !isListOfValuesPattern(patternValue) {
 			return false
+		}
+		// every further element of the query is one of the values the placeholder stands for
+		for _, value := range query[len(pattern):] {
+			if !areEqualExpr(value, patternValue) {
+				return false
+			}
 		}
 	}
 	return true
